@@ -250,7 +250,7 @@ def apply_patch_text(sources, patch_text, skip_failing=False, skipped=None):
     out = {}
     files = re.split(r'^diff --git ', patch_text, flags=re.M)[1:]
     for f in files:
-        m = re.search(r'^\+\+\+ [ab]/segno/(\w+)\.py', f, flags=re.M)
+        m = re.search(r'^\+\+\+ [ab]/segno/(\w+)\.py[ \t]*$', f, flags=re.M)
         if not m:
             continue
         mod = m.group(1)
